@@ -592,3 +592,26 @@ M("C10.remainder_only_retry(reverse of fix 8c8ee87)", ["C10"], "emitter/file/src
 
                 return Err(emit_batcher::BatchError::retry(err, batch));""",
   """                return Err(emit_batcher::BatchError::retry(err, batch));""", "C10.R8")
+
+# ---- C13 -------------------------------------------------------------------------------------------
+M("C13.log_attributes_without_dedup", ["C13"], "emitter/otlp/src/data.rs",
+  "    let _ = props.dedup().for_each(|k, v| {", "    let _ = props.for_each(|k, v| {", "C13.R2")
+M("C13.metrics_without_dedup(reverse of fix 8433e92)", ["C13"], "emitter/otlp/src/data/metrics.rs",
+  "            let _ = evt.props().dedup().for_each(|k, v| match k.get() {",
+  "            let _ = evt.props().for_each(|k, v| match k.get() {", "C13.R2")
+M("C13.span_status_index_14", ["C13"], "emitter/otlp/src/data/traces/span.rs",
+  None, None, "C13.R3") if False else None
+M("C13.metric_json_label(reverse of fix a59ce71)", ["C13"], "emitter/otlp/src/data/metrics/metric.rs",
+  """    #[sval(label = "asInt", index = 6)]""", """    #[sval(label = "value", index = 6)]""", "C13.R3")
+M("C13.new_unwrap_in_encoder", ["C13"], "emitter/otlp/src/data/logs/log_record.rs",
+  "                        level = v.by_ref().cast::<emit::Level>().unwrap_or_default();",
+  "                        level = v.by_ref().cast::<emit::Level>().unwrap();", "C13.R1.panic")
+M("C13.file_writer_without_dedup", ["C13"], "emitter/file/src/lib.rs",
+  "            let _ = self.0.props().dedup().for_each(|k, v| {", "            let _ = self.0.props().for_each(|k, v| {", "C13.R2")
+M("C13.lvl_also_attribute", ["C13"], "emitter/otlp/src/data/logs/log_record.rs",
+  """                        level = v.by_ref().cast::<emit::Level>().unwrap_or_default();
+                        Ok(())""",
+  """                        level = v.by_ref().cast::<emit::Level>().unwrap_or_default();
+                        stream.stream_attribute(k, v)""", "C13.R4")
+M("C13.span_status_index_14", ["C13"], "emitter/otlp/src/data/traces/span.rs",
+  "const SPAN_STATUS_INDEX: sval::Index = sval::Index::new(15);", "const SPAN_STATUS_INDEX: sval::Index = sval::Index::new(14);", "C13.R3")
